@@ -7,6 +7,7 @@ import NadaVerif.Spec.C02
 import NadaVerif.Spec.C06
 import NadaVerif.Spec.C03
 import NadaVerif.Spec.C07
+import NadaVerif.Runtime.SourceRef
 import NadaVerif.Driver.ProgJson
 
 namespace NadaVerif.Driver
@@ -72,6 +73,12 @@ def handle (j : Json) : Json :=
   | .ok "c07routes" => Json.arr ((C07.routes classTable).map fun (c, r, o, out) =>
       Json.arr #[Json.str c, Json.str r, Json.str o,
         Json.str (match out with | .raises => "raises" | .nada => "nada" | .silent => "silent")]).toArray
+  | .ok "lineinfo" =>
+    (match j.getObjValAs? (Array String) "lines", j.getObjValAs? Nat "lineno" with
+     | .ok ls, .ok n =>
+       let r := Runtime.lineInfo (ls.toList.map String.toList) n
+       Json.arr #[Json.num (r.1 : Nat), Json.num (r.2 : Nat)]
+     | _, _ => Json.mkObj [("error", Json.str "bad lineinfo request")])
   | .ok "fold" => handleFold j
   | .ok "prog" => handleProg j
   | .ok k => Json.mkObj [("error", Json.str ("unknown request " ++ k))]
